@@ -8,8 +8,14 @@
 * `rare --nocolor filter -l …`: every output line is `<source> <true 1-based line number>: <line>`.
 * `rare --nocolor filter -e '{src}:{line}:{1}|{@}'`: source, line number, group 1 and the NUL-joined
   groups as the model's `ctx` op gives them.
+* stdin with pauses and a consumer that reads late (`stdin_timeflush`): the real `rare filter -l` reading stdin
+  (`OpenReaderToChan`, the real 250 ms `AutoFlushTimeout`) while nobody reads its stdout: 32 long lines at full speed
+  (full batches: the stdout pipe fills, the match channel fills, the worker blocks), then after a pause longer than the
+  flush timeout a burst of lines (the first one is time-flushed alone as a short batch and waits in the batch channel
+  while the batcher appends its successors), twice; only after stdin is closed is stdout read.  Every output line must
+  be `<stdin> <k>: <line k>`.
 """
-import os, subprocess, sys
+import os, subprocess, sys, time
 sys.path.insert(0, os.path.dirname(__file__))
 from common import build_rare, Rand
 
@@ -128,9 +134,58 @@ def run_extra(ctx):
         runs += 1
         if p.stdout != want:
             viol("e2e-named-group", pattern=pat, expression=expr, got=p.stdout.decode(errors="replace"), want=want.decode())
+    r, v = stdin_timeflush(exe, rnd, ctx["tier"])
+    runs += r
+    for x in v:
+        viol(x.pop("key"), **x)
     return {"runs": runs, "violations": violations,
             "assumptions": ["e2e step: one reader and one worker (input order is then a theorem, fifo_order); index lists of the "
                             "real matchers are taken from the harness binary (op idx)"]}
+
+
+def stdin_timeflush(exe, rnd, tier):
+    """see the module comment; returns (runs, violations)"""
+    runs, out = 0, []
+    for rep in range(1 if tier == "quick" else 4):
+        batch = rnd.pick([4, 4, 8])
+        width = 16384 + rnd.intn(64)
+        n = [0]
+
+        def mk(k):
+            n[0] += 1
+            return b"L%d-" % n[0] + rnd.pick([b"a", b"b", b"Q"]) * width
+
+        first = [mk(0) for _ in range(8 * batch)]
+        bursts = [[mk(0) for _ in range(2 + rnd.intn(3))] for _ in range(2)]
+        p = subprocess.Popen([exe, "--nocolor", "filter", "-l", "-m", r"^(L\d+)-\w*$", "--workers", "1", "--batch", str(batch),
+                              "--batch-buffer", "64"], stdin=subprocess.PIPE, stdout=subprocess.PIPE, stderr=subprocess.DEVNULL)
+        try:
+            p.stdin.write(b"".join(l + b"\n" for l in first))
+            p.stdin.flush()
+            for b in bursts:
+                time.sleep(0.4)          # longer than AutoFlushTimeout (250 ms)
+                p.stdin.write(b"".join(l + b"\n" for l in b))
+                p.stdin.flush()
+            time.sleep(0.05)
+            p.stdin.close()
+            time.sleep(0.05)
+            got = p.stdout.read()        # late consumption starts here
+            p.wait(timeout=60)
+        finally:
+            if p.poll() is None:
+                p.kill()
+        runs += 1
+        lines = first + [l for b in bursts for l in b]
+        want = b"".join(b"<stdin> %d: " % (k + 1) + l + b"\n" for k, l in enumerate(lines))
+        if got != want:
+            g, w = got.split(b"\n"), want.split(b"\n")
+            k = next((i for i in range(min(len(g), len(w))) if g[i] != w[i]), min(len(g), len(w)))
+            out.append({"key": "e2e-stdin-timeflush-late-consumer", "batch": batch, "lines": len(lines), "first_diff_output_line": k + 1,
+                        "got": (g[k][:40].decode(errors="replace") if k < len(g) else None),
+                        "want": (w[k][:40].decode(errors="replace") if k < len(w) else None),
+                        "input": "%d lines of %d bytes at once, pause 0.4 s, burst of %d lines, pause 0.4 s, burst of %d lines; stdout read after stdin was closed"
+                                 % (len(first), width, len(bursts[0]), len(bursts[1]))})
+    return runs, out
 
 
 def run(*a, **k):
